@@ -190,6 +190,16 @@ def httpOutcome (spec : Json) : E HttpOutcome := do
   | "status" => pure (.status (← nat spec "code"))
   | "netfail" => pure .network
   | "cancel" => pure .cancelled
+  | "cut" =>
+    -- an otherwise valid answer (content v) damaged in transport.  "short" / "chunk" / "chunkend": the body ends before
+    -- its announced end, wherever that is.  "over": only the first k bytes are announced, the client takes them for the
+    -- whole body: nothing (k = 0) or a prefix that is no rule set (the generator only cuts where that is so)
+    let v ← nat spec "v"
+    match ← str spec "how" with
+    | "over" =>
+      if strD spec "rel" "" == "" && natD spec "at" 0 == 0 then pure .empty else pure .invalid
+    | "short" | "chunk" | "chunkend" => pure (.truncated v)
+    | h => throw s!"unknown damage {h}"
   | s => throw s!"unknown response {s}"
 
 def runHTTP (c : Json) : E Json := do
@@ -216,6 +226,7 @@ def blobState (spec : Json) : E (Option BlobState) := do
   | "valid" => if strD spec "ct" "" == "text" then pure (some .invalid) else pure (some (.valid (← nat spec "v")))
   | "empty" => pure (some .empty)
   | "invalid" => pure (some .invalid)
+  | "cut" => pure (some (.truncated (← nat spec "v")))      -- the GET of the object breaks off mid-body
   | "absent" => pure none
   | s => throw s!"unknown blob state {s}"
 
